@@ -1,6 +1,7 @@
 import Jwt.Lemmas.Verify
 import Jwt.Checker
 import Jwt.Builder
+import Jwt.Lemmas.PipelineConfig
 /-!
 # C13 — a verdict depends only on configuration, token and clock (checker side; builder in C13b)
 -/
@@ -99,5 +100,27 @@ theorem C13_generate_history (b : Builder) (envs : List Env) :
 
 /-! ### non-vacuity: a state with the flag set and a stale message is a legitimate starting point -/
 example : (fresh { cfg := Checker.new.cfg, error := true, msg := some .claims }).error = false := rfl
+
+/-- **The configuration calls are the source's.** `FUNC(setkey)` and `FUNC(setcb)` are *generated* from `jwt-common.c`
+with a flag that says whether the arguments were stored. A refused `setkey` returns 1 and leaves key and algorithm as
+they were (the verdicts that follow depend on the configuration in force, which is the old one); an admitted one stores
+both. -/
+theorem C13_setkey_is_source (ck : Checker) (alg : Alg) (key : Option KeyItem) :
+    (ck.setkey alg key).2 = (Jwt.Generated.Pipeline.setkey (setkeyCheck .checker alg key).isSome).1 ∧
+    ((Jwt.Generated.Pipeline.setkey (setkeyCheck .checker alg key).isSome).2.2 = false →
+      (ck.setkey alg key).1.cfg.alg = ck.cfg.alg ∧ (ck.setkey alg key).1.cfg.key = ck.cfg.key) :=
+  ⟨(checker_setkey_generated ck alg key).1, (checker_setkey_generated ck alg key).2.2⟩
+
+/-- a context-only `setcb` (NULL callback, non-NULL context) keeps the installed callback, in the model and in the
+generated code (`stored` stays false); without an installed callback it is refused with a message -/
+theorem C13_setcb_ctx_is_source (ck : Checker) :
+    ck.setcbCtx.2 = (Jwt.Generated.Pipeline.setcb false true ck.cfg.cb.isNone false).1 ∧
+    (Jwt.Generated.Pipeline.setcb false true ck.cfg.cb.isNone false).2.2 = false ∧ ck.setcbCtx.1.cfg.cb = ck.cfg.cb :=
+  ⟨(checker_setcb_generated ck none).2.1, (checker_setcb_generated ck none).2.2.1, (checker_setcb_generated ck none).2.2.2.1⟩
+
+theorem C13_builder_config_is_source (b : Builder) (alg : Alg) (key : Option KeyItem) :
+    (b.setkey alg key).2 = (Jwt.Generated.Pipeline.setkey (setkeyCheck .builder alg key).isSome).1 ∧
+    b.setcbCtx.1.cfg.cb = b.cfg.cb :=
+  ⟨(builder_setkey_generated b alg key).1, (builder_setcb_generated b none).2.2.2.1⟩
 
 end Jwt.Props.C13
